@@ -65,6 +65,20 @@ def parseAction (s : String) : PAct :=
         | some r, some cmds => .act (.enqueueRaw r (renderReq cmds))
         | _, _ => .bad
       | _ => .bad
+    | 'k' =>
+      match rest.splitOn ":" with
+      | [rid, spec] =>
+        match rid.toNat?, buildCmds spec with
+        | some r, some [c] => .act (.enqueueSingle r (renderReq [c]))
+        | _, _ => .bad
+      | _ => .bad
+    | 'm' =>
+      match rest.splitOn ":" with
+      | [rid, name] =>
+        match rid.toNat?, unhex name with
+        | some r, some n => .act (.enqueueTyped1 r n)
+        | _, _ => .bad
+      | _ => .bad
     | 'b' =>
       match rest.splitOn ":" with
       | [rid, spec, data] =>
@@ -126,6 +140,7 @@ def fmtFinal : Final → String
   | .art none => "art:none"
   | .art (some (d, m)) => s!"art:{hex d}:{match m with | none => "~" | some x => hex x}"
   | .typed items => "typed:" ++ "+".intercalate (items.map hex)
+  | .frame f => s!"one:{Proto.fmtFrame f}"
 
 def fmtSegment (s : Segment) : String :=
   let parts : List String :=
@@ -201,6 +216,16 @@ def expectedRaw (cmds : List Bytes) : String :=
   | .resp frames none :: _ => s!"ok:{fmtFrames frames}"
   | .resp frames (some e) :: _ =>
     s!"ack:{e.code}:{e.index}:{match e.command with | none => "~" | some c => hex c}:{hex e.message}:{fmtFrames frames}"
+  | _ => "?"
+
+/-- expected result of `raw_command`: the one frame of the server's reply, or its error (which
+carries no frames) -/
+def expectedSingle (cmd : Bytes) : String :=
+  let reply := Spec.Server.replyBlock [cmd] false
+  match Spec.refDecode (reply.length + 2) {} reply with
+  | .resp (f :: _) none :: _ => s!"one:{Proto.fmtFrame f}"
+  | .resp [] (some e) :: _ =>
+    s!"ack:{e.code}:{e.index}:{match e.command with | none => "~" | some c => hex c}:{hex e.message}:"
   | _ => "?"
 
 def expectedArt (uri : Bytes) : String :=
@@ -285,7 +310,7 @@ def handle (toks : List String) (impl : String) : Verdict :=
     -- pending callers according to the model: enqueued, not cancelled, no result
     let enq : List Nat := actions.filterMap fun a =>
       match a with
-      | .enqueueRaw r _ | .enqueueArt r _ | .enqueueTyped r _ _ | .both r _ _ => some r
+      | .enqueueRaw r _ | .enqueueArt r _ | .enqueueTyped r _ _ | .both r _ _ | .enqueueSingle r _ | .enqueueTyped1 r _ => some r
       | _ => none
     let canc : List Nat := actions.filterMap fun a => match a with | .cancel r => some r | _ => none
     let done : List Nat := modelSegs.flatMap fun s => s.results.map (·.1)
@@ -393,7 +418,7 @@ def handle (toks : List String) (impl : String) : Verdict :=
       (f.sv.idleReplies.filter (fun r => r.1 ≤ body.length)).flatMap fun r => r.2.map hex
     let rawReqs : List (Nat × List Bytes) := (actsS.splitOn ",").filterMap fun a =>
       match a.toList with
-      | 'q' :: rest | 'b' :: rest =>
+      | 'q' :: rest | 'b' :: rest | 'k' :: rest =>
         match (String.ofList rest).splitOn ":" with
         | rid :: spec :: _ =>
           match rid.toNat?, buildCmds spec with
@@ -404,15 +429,17 @@ def handle (toks : List String) (impl : String) : Verdict :=
     let artReqs : List (Nat × Bytes) := actions.filterMap fun a =>
       match a with | .enqueueArt r u => some (r, u) | _ => none
     let typedReqs : List (Nat × List Bytes) := actions.filterMap fun a =>
-      match a with | .enqueueTyped r _ ns => some (r, ns) | _ => none
+      match a with | .enqueueTyped r _ ns => some (r, ns) | .enqueueTyped1 r n => some (r, [n]) | _ => none
+    let singleRids : List Nat := actions.filterMap fun a =>
+      match a with | .enqueueSingle r _ => some r | _ => none
     let isErrClass (s : String) : Bool := s == "closed" || s.startsWith "proto:"
     let checkResults : Option String :=
       f.results.findSome? fun (rid, res) =>
         match rawReqs.find? (·.1 == rid) with
         | some (_, cmds) =>
-          if res == expectedRaw cmds then none
+          if res == (if singleRids.contains rid then expectedSingle (cmds.headD []) else expectedRaw cmds) then none
           else if isErrClass res && (!honest || f.dropMain || f.sv.refusedIdle) then none
-          else if !honest then (if res.startsWith "ok:" || res.startsWith "ack:" then none else some s!"fail:C01-result-of-{rid}") else some s!"fail:C01-wrong-reply-for-request-{rid}"
+          else if !honest then (if res.startsWith "ok:" || res.startsWith "one:" || res.startsWith "ack:" then none else some s!"fail:C01-result-of-{rid}") else some s!"fail:C01-wrong-reply-for-request-{rid}"
         | none =>
           match artReqs.find? (·.1 == rid) with
           | some (_, uri) =>
@@ -452,7 +479,8 @@ def handle (toks : List String) (impl : String) : Verdict :=
     let inventedReply : Option Nat :=
       if !malformedDelivered then none else
       f.results.findSome? fun (rid, res) =>
-        if (res.startsWith "ok:" || res.startsWith "ack:") && !(wellFormedBefore.contains res) then some rid else none
+        -- (a `one:` result is the first frame of a response; an `ack:` of `raw_command` carries no frames)
+        if (res.startsWith "ok:" || res.startsWith "ack:") && !(singleRids.contains rid) && !(wellFormedBefore.contains res) then some rid else none
     -- the schedule ended quiescent: nothing was observed during its last two actions (a long picture
     -- with a small chunk limit can outlast the generator's drain rounds: that is not a hang)
     let quietEnd : Bool :=
